@@ -32,27 +32,7 @@ def generic_mc(work, module, name, constants, invariants=(), properties=(), spec
     return r
 
 
-def tlaps_proof(work, module):
-    """re-establish a TLAPS proof (a statement about the MODEL for all values of its constants); environmental trouble is a note, never a verdict"""
-    import re
-    import subprocess
-    d = work.sub("tlaps")
-    vlib.spec_copy(d)
-    t0 = time.time()
-    try:
-        p = subprocess.run(["tlapm", "--threads", str(max(2, vlib.NCPU // 2)), module], cwd=d, stdout=subprocess.PIPE, stderr=subprocess.STDOUT,
-                           text=True, timeout=900)
-        out = p.stdout
-    except Exception as e:  # missing tool, timeout
-        out = "tlapm did not run: %s" % e
-    m = re.search(r"All (\d+) obligations? proved", out)
-    r = dict(module=module, obligations_proved=int(m.group(1)) if m else 0, all_proved=bool(m), wall_s=round(time.time() - t0, 1))
-    if not m:
-        f = re.search(r"(\d+)/(\d+) obligations failed", out)
-        r["failed"] = f.group(0) if f else out[-300:]
-        print("MODEL-NOTE: the TLAPS proof %s was not re-established (%s): a statement about the model, not a verdict" % (module, r["failed"]))
-    log("[tlaps] %s: %s obligations proved (%.0fs)" % (module, r["obligations_proved"] if m else "NOT all", r["wall_s"]))
-    return r
+tlaps_proof = vlib.tlaps_proof
 
 
 def mc_summary(mcs):
